@@ -32,7 +32,9 @@ RULE = ("one scenario = 1-5 stations (continuous or finite-rate EVSEs, shuffled 
         "0-3 constraints with mixed-sign coefficients, 1-9 non-overlapping sessions (back-to-back stays, arrival ties across "
         "stations), scheduler in {uncontrolled, scripted multi-period, sorted FCFS/EDF/LLF/LRPT with distinct keys}; "
         "6 runs per scenario (original, stations permuted, constraints permuted, sessions permuted, shifted by k, other "
-        "PYTHONHASHSEED); each run is one correspondence case; distinct = distinct (scenario, variant); cases in which a "
+        "PYTHONHASHSEED); stream 2: in-process sequences A, <unrelated / re-wired sites with the same ids>, A on three-phase "
+        "sites with binding constraints and sorted schedulers - the second run of A must equal the first exactly; "
+        "each run is one correspondence case; distinct = distinct (scenario, variant); cases in which a "
         "feasibility or fully-charged decision is within 1e-6 / 1e-9 of its threshold are skipped as float-ambiguous")
 ASSUMPTIONS = ["exact rational arithmetic in the model; values compared to 1e-9 relative",
                "sessions at one station do not overlap (otherwise plugin raises StationOccupiedError) and arrival < departure",
@@ -354,6 +356,149 @@ def gen_cases(rng, n, tier):
     return cases
 
 
+
+# ---------------------------------------------------------------------------------------------
+# in-process SEQUENCES of simulations: equal inputs must give equal outputs whatever ran in between
+# ---------------------------------------------------------------------------------------------
+def rand_threephase(rng, idx, prefix="TP"):
+    """three-phase site with binding constraints and several overlapping sessions, sorted scheduler: the algorithm's own
+    feasibility check (algorithms/utils.py) decides the pilots"""
+    n = rng.randint(3, 6)
+    names = ["%s-%03d" % (prefix, i) for i in rng.sample(range(100, 160), n)]
+    wiring = rng.choice([[0, 120, -120], [30, 150, -90], [0, -120, 120]])
+    finite = rng.random() < 0.35
+    stations = [dict(id=nm, kind=(["F", [8, 16, 24, 32]] if finite else ["C", 0, 32]), voltage=208,
+                     phase=wiring[(i + rng.randint(0, 2)) % 3]) for i, nm in enumerate(names)]
+    constraints = []
+    for c in range(rng.randint(1, 3)):
+        members = rng.sample(names, rng.randint(2, n))
+        constraints.append(dict(name="con-%d" % c, coefs={m: rng.choice([1, 1, 1, -1]) for m in members},
+                                limit=rng.choice([20, 30, 40, 50])))
+    sessions, k = [], 0
+    arrs = rng.sample(range(0, n + 2), n)
+    deps = rng.sample(range(n + 4, 2 * n + 10), n)
+    for nm, a, d in zip(names, arrs, deps):
+        sessions.append(dict(k=k, id="sess-%02d" % k, station=nm, arrival=a, departure=d,
+                             energy=rng.choice([6.0, 12.0, 20.0]), cap=60.0, init=0.0, maxp=rng.choice([6.5, 7.5, 11.0])))
+        k += 1
+    return dict(idx=idx, stations=stations, constraints=constraints, sessions=sessions, kind="sorted",
+                sort=rng.choice(["fcfs", "edf", "llf"]), max_recompute=rng.choice([None, 1]),
+                script_seed=rng.randint(0, 10 ** 6), script_len=rng.randint(1, 3), shift=1, perm_seed=rng.randint(0, 10 ** 6))
+
+
+def rewired(rng, sc, idx):
+    """same station ids, constraint ids and sessions as sc; other phases, voltages, coefficients and limits"""
+    b = json.loads(json.dumps(sc))
+    b["idx"] = idx
+    for st in b["stations"]:
+        st["phase"] = rng.choice([p for p in [0, 120, -120, 30, 150, -90] if p != st["phase"]])
+        st["voltage"] = rng.choice([208, 240])
+    for c in b["constraints"]:
+        c["coefs"] = {m: rng.choice([1, -1, 2, 0.5]) for m in c["coefs"]}
+        c["limit"] = rng.choice([x for x in [20, 30, 40, 50, 64] if x != c["limit"]])
+    return b
+
+
+def rand_sequence(rng, idx):
+    """[A, ..., A]: what runs between the two runs of A varies"""
+    a = rand_threephase(rng, idx) if rng.random() < 0.75 else rand_scenario(rng, idx)
+    b = rewired(rng, a, idx + 1)
+    x = rand_threephase(rng, idx + 2, prefix="XQ")
+    x2 = rand_scenario(rng, idx + 3)
+    pat = rng.choice(["AXBA", "AXBA", "AXBA", "ABXA", "ABA", "AXBX2A", "AX2BA"])
+    mid = {"AXBA": [x, b], "ABXA": [b, x], "ABA": [b], "AXBX2A": [x, b, x2], "AX2BA": [x2, b]}[pat]
+    return dict(pattern=pat, scs=[a] + mid + [a])
+
+
+def run_sequence(seq):
+    return [run_variant(sc, "orig") for sc in seq["scs"]]
+
+
+OUT_KEYS = ("crash", "iterations", "pilots", "rates", "energy", "warn")
+
+
+def sequence_cases(seq, outs, other=None):
+    """one correspondence case per run; the first case carries the repeated-run comparison for the monitor"""
+    cases = []
+    for j, (sc, o) in enumerate(zip(seq["scs"], outs)):
+        vi = variant_input(sc, "orig")
+        amb = (not o["crash"]) and ambiguous(sc, vi, o)
+        extra = None
+        if j == 0:
+            extra = dict(pattern=seq["pattern"], first={k: outs[0][k] for k in OUT_KEYS},
+                         again={k: outs[-1][k] for k in OUT_KEYS}, other=other)
+        cases.append(dict(input=dict(scenario=sc, variant="seq%d/%s" % (j, seq["pattern"]), sequence=(seq if j == 0 else None)),
+                          impl=dict(o, calls=None), coq=case_coq(sc, vi, o), ambiguous=amb,
+                          kind="seq/%s/%s" % (sc["kind"], seq["pattern"]), sig=[sc["idx"], sc["perm_seed"], "seq", j, seq["pattern"]],
+                          nontrivial=True, paired=None, repeated=extra))
+    return cases
+
+
+def all_sequence_cases(seqs):
+    """run every sequence in this process and its distinct scenarios, in REVERSED order, in a second process (other
+    PYTHONHASHSEED); returns the correspondence cases"""
+    outs = [run_sequence(q) for q in seqs]
+    flat, back = [], []
+    for qi, q in enumerate(seqs):
+        for j in reversed(range(len(q["scs"]) - 1)):
+            flat.append(q["scs"][j])
+            back.append((qi, j))
+    oth = other_hashseed(flat)
+    per_seq = {}
+    for (qi, j), o in zip(back, oth):
+        per_seq.setdefault(qi, {})[j] = {k: o[k] for k in OUT_KEYS}
+    cases = []
+    for qi, (q, o) in enumerate(zip(seqs, outs)):
+        other = dict(runs={str(j): v for j, v in per_seq.get(qi, {}).items()},
+                     mine={str(j): {k: o[j][k] for k in OUT_KEYS} for j in range(len(o) - 1)})
+        cases.extend(sequence_cases(q, o, other))
+    return cases
+
+
+def extra_streams(rng, tier):
+    n = {"quick": 30, "thorough": 300}[tier]
+    return [("q", CORR_HEADER, CHECK_FN, all_sequence_cases([rand_sequence(rng, 10 ** 5 + 10 * i) for i in range(n)]))]
+
+
+def same_outputs(a, b, what, exact):
+    if a["crash"] or b["crash"]:
+        return "%s: a run raised (%s / %s)" % (what, a["crash"], b["crash"])
+    for key in ("pilots", "rates"):
+        if exact:
+            if a[key] != b[key]:
+                for st in a[key]:
+                    if a[key][st] != b[key].get(st):
+                        return "%s: %s of station %s differ: %r vs %r" % (what, key, st, a[key][st], b[key].get(st))
+        else:
+            r = rows_equal(a[key], b[key], "%s/%s" % (what, key))
+            if r:
+                return r
+    for k in a["energy"]:
+        if (a["energy"][k] != b["energy"].get(k)) if exact else (not close(a["energy"][k], b["energy"][k])):
+            return "%s: energy of %s: %r vs %r" % (what, k, a["energy"][k], b["energy"].get(k))
+    return None
+
+
+def monitor_repeated(case):
+    rp = case.get("repeated")
+    if not rp:
+        return None
+    r = same_outputs(rp["first"], rp["again"], "sequence %s: second simulation built from equal inputs in the same process" % rp["pattern"],
+                     exact=True)
+    if r:
+        return r
+    oth = rp.get("other")
+    if oth:
+        for j, mine in oth["mine"].items():
+            theirs = oth["runs"].get(j)
+            if theirs is None:
+                continue
+            r = same_outputs(mine, theirs, "sequence %s, scenario %s: same inputs, other process with the scenarios in reversed order"
+                             % (rp["pattern"], j), exact=False)
+            if r:
+                return r
+    return None
+
 # ---------------------------------------------------------------------------------------------
 # the property, directly on the paired implementation outputs
 # ---------------------------------------------------------------------------------------------
@@ -377,6 +522,8 @@ def rows_equal(a, b, what, shift=0):
 
 
 def monitor(case):
+    if case.get("repeated"):
+        return monitor_repeated(case)
     p = case.get("paired")
     if not p:
         return None
@@ -416,6 +563,11 @@ def search(rng, budget_s, broken):
     t0 = time.time()
     i = 0
     while time.time() - t0 < budget_s:
+        if i % 20 == 1:
+            for c in all_sequence_cases([rand_sequence(rng, 2 * 10 ** 6 + 200 * i + 10 * j) for j in range(10)]):
+                r = monitor(c)
+                if r:
+                    return dict(case=c["input"], impl=None, why=r)
         sc = rand_scenario(rng, 10 ** 6 + i)
         i += 1
         outs = [run_variant(sc, v) for v in VARIANTS]
@@ -427,6 +579,13 @@ def search(rng, budget_s, broken):
 
 
 def replay(w):
+    if w["case"].get("sequence"):
+        q = w["case"]["sequence"]
+        for c in all_sequence_cases([q]):
+            r = monitor(c)
+            if r:
+                return r
+        return None
     sc = w["case"]["scenario"]
     outs = [run_variant(sc, v) for v in VARIANTS]
     outs.append(other_hashseed([sc])[0])
